@@ -191,6 +191,7 @@ func (j *c16Job) RunUnit(i int, c *run.Ctx) {
 	}
 	for _, k := range j.keys[lo:hi] {
 		for _, cs := range c16Cases(k) {
+			c.Tick()
 			c.Evals++
 			c.Nontrivial++
 			ok, kind, detail := c16Judge(cs, j.env)
